@@ -131,8 +131,9 @@ class ShortReads:
         return self._pos
 
 
-async def scenario(names, prefix, tokens, payload, chunk_size, host='objects.example.test', scheme='https'):
+async def scenario(names, prefix, tokens, payload, chunk_size, host='objects.example.test', scheme='https', flaky=False):
     problems, seen = [], []
+    refused = set()
     s3c.datetime = Clock().cls
     secret, region = 'sEcr/et+key', 'eu-test-1'
     pages = list(tokens)
@@ -141,6 +142,10 @@ async def scenario(names, prefix, tokens, payload, chunk_size, host='objects.exa
         body = await request.aread()
         seen.append((request.method, request.url.raw_path))
         check_request(request, body, secret, region, host, problems)
+        if flaky and (request.method, request.url.raw_path) not in refused:
+            # the first attempt of every distinct request is answered 503: the RETRY is a request on the wire like any other
+            refused.add((request.method, request.url.raw_path))
+            return httpx.Response(503 if len(refused) % 2 else 500)
         if request.method == 'GET' and b'list-type=2' in request.url.raw_path:
             sent = [t for t in pages if ('continuation-token=' + aws_uri_encode(t.encode(), False)).encode() in request.url.raw_path]
             idx = pages.index(sent[0]) + 1 if sent else 0
@@ -224,6 +229,21 @@ def main():
         n_req += n
         if problems:
             failures.append({'id': f'wire_chunk{cs}', 'class': None, 'case': {'payload': 300, 'stream_chunk_size': cs}, 'detail': problems[:3]})
+    # every request is refused once (503 / 500) and sent again by the adapter's retry: the re-sent requests carry valid signatures too
+    scen += 1
+    import asyncio as _asyncio, time as _time
+    _real_sleep, _real_tsleep = _asyncio.sleep, _time.sleep
+    _asyncio.sleep = lambda s, *a, **k: _real_sleep(0)
+    _time.sleep = lambda s: None
+    try:
+        problems, n = lib.run(scenario(['data/ab/retried', 'sp ace'], 'data/', ['tok en'], lib.content(seed + 77, 700), 256, flaky=True))
+    except Exception as e:
+        problems, n = [{'problem': 'exception', 'type': type(e).__name__, 'text': str(e)[:300]}], 0
+    finally:
+        _asyncio.sleep, _time.sleep = _real_sleep, _real_tsleep
+    n_req += n
+    if problems:
+        failures.append({'id': 'wire_retried', 'class': None, 'case': {'every_request_refused_once': True}, 'detail': problems[:3]})
     # object names with a '.' or '..' path segment: httpx normalises the URL path after it was signed (known finding D19)
     scen += 1
     try:
